@@ -8,6 +8,8 @@
  *                      and receives, for every invocation, two files in `got/`:
  *                          <id>.in    the bytes read from stdin
  *                          <id>.args  argv[1..], one per line
+ *   FAKE_VAMPIRE_DEFAULT=theorem   problems that are not in the plan are answered `SZS status Theorem`
+ *                      after (hash mod 60) ms instead of `SZS status Error for unplanned`.
  *   FAKE_VAMPIRE_NOREAD=1   exit(1) at once without reading stdin or writing anything but a marker.
  *
  * A problem that is not in the plan is answered with `SZS status Error for unplanned` and recorded
@@ -122,7 +124,13 @@ int main(int argc, char **argv) {
         fclose(f);
     }
     if (!found) {
+        const char *dflt = getenv("FAKE_VAMPIRE_DEFAULT");
         const char *msg = "% SZS status Error for unplanned\n";
+        if (dflt && strcmp(dflt, "theorem") == 0) {
+            /* every problem is a theorem, after a delay that depends on the problem text */
+            msg = "% SZS status Theorem for any\n";
+            delay = (long)(h % 60);
+        }
         out = (unsigned char *)msg; nout = strlen(msg);
     }
     if (delay > 0) {
